@@ -163,7 +163,12 @@ class FlowFields(ImageBatch):
             torch.tensor_split,
             Tensor.tensor_split,
         ):
-            return tuple(cls._torch_function_result(func, res, grid, axes) for res in data)
+            if grid is not None and all(isinstance(g, Grid) for g in grid):
+                # Split along other than batch dimension, all chunks have the same grids
+                grid = [grid] * len(data)
+            return tuple(
+                cls._torch_function_result(func, res, g, axes) for res, g in zip(data, grid)
+            )
         return cls._torch_function_result(func, data, grid, axes)
 
     @overload
